@@ -6,6 +6,7 @@ import (
 	"io"
 	"os"
 	"path/filepath"
+	"time"
 
 	"github.com/codenotary/immudb/embedded/logger"
 	"github.com/codenotary/immudb/embedded/store"
@@ -26,8 +27,14 @@ type KV struct {
 	MD   *store.KVMetadata
 }
 
+// CommitTimeout bounds Commit/CommitMD: a store that stopped making progress (e.g. an indexer that
+// cannot decode what was just written) must not hang a monitor; the error is context.DeadlineExceeded.
+var CommitTimeout = 30 * time.Second
+
 func Commit(st *store.ImmuStore, kvs ...KV) (*store.TxHeader, error) {
-	tx, err := st.NewWriteOnlyTx(context.Background())
+	ctx, cancel := context.WithTimeout(context.Background(), CommitTimeout)
+	defer cancel()
+	tx, err := st.NewWriteOnlyTx(ctx)
 	if err != nil {
 		return nil, err
 	}
@@ -37,11 +44,13 @@ func Commit(st *store.ImmuStore, kvs ...KV) (*store.TxHeader, error) {
 			return nil, err
 		}
 	}
-	return tx.Commit(context.Background())
+	return tx.Commit(ctx)
 }
 
 func CommitMD(st *store.ImmuStore, md *store.TxMetadata, kvs ...KV) (*store.TxHeader, error) {
-	tx, err := st.NewWriteOnlyTx(context.Background())
+	ctx, cancel := context.WithTimeout(context.Background(), CommitTimeout)
+	defer cancel()
+	tx, err := st.NewWriteOnlyTx(ctx)
 	if err != nil {
 		return nil, err
 	}
@@ -52,7 +61,7 @@ func CommitMD(st *store.ImmuStore, md *store.TxMetadata, kvs ...KV) (*store.TxHe
 			return nil, err
 		}
 	}
-	return tx.Commit(context.Background())
+	return tx.Commit(ctx)
 }
 
 // CopyDir copies a directory tree (regular files only).
